@@ -1,11 +1,15 @@
 #!/bin/bash
-# usage: benign_run.sh <patch.diff> : applies a behaviour-preserving change to /repo, runs the quick check of every
-# property whose packages the change touches, and undoes the change. Every check must exit 0 (no alarm on code
-# where the property holds). Prints one line per check.
-patch=$1
-if [ -n "$(git -C /repo status --short | grep -v '^??')" ]; then echo "/repo has uncommitted changes"; exit 2; fi
-git -C /repo apply $patch || { echo "PATCH DOES NOT APPLY"; exit 2; }
-ids=$(python3 - "$patch" <<'PY'
+# usage: benign_run.sh <patch.diff>... : for each behaviour-preserving change: applies it to a scratch worktree of
+# /repo's HEAD (outside /repo and /verif, removed at the end), runs the quick check of every property whose
+# packages the change touches (govc --repo <worktree>), and undoes it. Every check must exit 0: no alarm on code
+# where the property holds. Prints one line per check; exit 0 iff no check raised anything.
+wt=$(mktemp -d /tmp/benignrepo.XXXXXX); rmdir $wt
+git -C /repo worktree add -q --detach $wt HEAD || exit 2
+fail=0
+for patch in "$@"; do
+  echo "== $(basename $patch)"
+  git -C $wt apply $patch || { echo "PATCH DOES NOT APPLY"; fail=1; continue; }
+  ids=$(python3 - "$patch" <<'PY'
 import json,sys,re
 pkgs=set()
 for l in open(sys.argv[1]):
@@ -15,11 +19,12 @@ p=json.load(open('/verif/props/props.json'))
 print(' '.join(k for k,v in p.items() if pkgs & set(v['packages'])))
 PY
 )
-fail=0
-for id in $ids; do
-  out=$(cd /verif && timeout 1200 ./bin/govc check $id --no-evidence 2>&1); code=$?
-  echo "check $id exit=$code"
-  [ $code != 0 ] && { echo "$out" | grep -E "^(VIOLATION|UNDECIDED)" | cut -c1-300; fail=1; }
+  for id in $ids; do
+    out=$(cd /verif && timeout 1200 ./bin/govc check $id --no-evidence --repo $wt 2>&1); code=$?
+    echo "check $id exit=$code"
+    [ $code != 0 ] && { echo "$out" | grep -E "^(VIOLATION|UNDECIDED)" | cut -c1-300; fail=1; }
+  done
+  git -C $wt checkout -q -- . ; git -C $wt clean -qfd
 done
-git -C /repo apply -R $patch || git -C /repo checkout -- .
+git -C /repo worktree remove --force $wt
 exit $fail
